@@ -389,6 +389,14 @@ impl StringDecoder for Utf8LengthPrefixedDecoder {
             .first()
             .ok_or_else(|| PacketBad.context("Length of string not found"))?;
 
+        // The declared length must not run past the end of the data
+        if length as usize + 1 > data.len() {
+            return Err(PacketUnderflow.context(format!(
+                "String length {length} was larger than remaining bytes {}",
+                data.len() - 1
+            )));
+        }
+
         // Find the position of the delimiter in the data. If the delimiter is not
         // found, the length is returned.
         let position = data
